@@ -291,7 +291,7 @@ chk(
     "the debouncer parked inside threading.Condition.wait on the timeout path while an event arrives; callbacks that feed an event "
     "back into / stop their own debouncer; synthetic events among the triggering events; the shell-command trick served by two "
     "event sources at once; stop() landing before the debouncer's very first wait with no event at all (hold at every line on the way "
-    "there); the process watcher held on its way into poll() across an event-triggered restart (one event = one restart).",
+    "there); a quiescent one-event script with a long-lived child while the process watcher's thread is a hold target (one event = one restart; the watcher's own poll loop is instrumented but not yet a hold point).",
     "Processes are simulated (fake Popen, kill_process, fast clock behind tricks.subprocess/kill_process/time); real signals are not "
     "exercised (the upstream tests that do are skipped here for lack of PyYAML). Three genuine defects of AutoRestartTrick are recorded "
     "as known findings (F11, F21 and its consequence) and matched by mechanism.",
